@@ -95,7 +95,7 @@ def stepped_placements():
     return res
 
 
-def gen_stepped(seed, i, engine, placement=None):
+def gen_stepped(seed, i, engine, placement=None, rdfault=False):
     r = rng_for(seed, "c09s/%d" % i)
     sh = hist.Shadow()
     others = [K2, K3]
@@ -136,6 +136,10 @@ def gen_stepped(seed, i, engine, placement=None):
         lines.append("create %s %s f=ua" % (hx(b"/r/c"), hx(b"unc-o")))
         sh.dealt += 1
         lines += ["rev", "await retry.step"]
+    if rdfault:
+        # the repair's READ of the key fails once (transient engine error): nothing may be concluded from it - the entry stays
+        # queued (and keeps capping compaction) and is repaired at a later tick
+        lines += ["retry", "step R f=rd", "rev", "await retry.step"]
     # the repair of the head, up to just before its commit: it has read the key and holds a fresh revision
     if btw == "race-client-first":
         # a client is dealt its revision BEFORE the repair is dealt its own, and commits while the repair is parked
@@ -182,6 +186,9 @@ def stepped_cases(seed, tier, base=3000):
     pl = stepped_placements()
     engines = ["memkv", "tikv"] if tier == "quick" else ENGINES
     cases = [gen_stepped(seed, base + i, engines[i % len(engines)], p) for i, p in enumerate(pl)]
+    # the same with the repair's first read failing (every first verb x what follows, no second unresolved write)
+    rd = [p for p in pl if p[3] is None and p[2] == "-" and p[1] in ("upd", "none", "recreate", "compact", "other")]
+    cases += [gen_stepped(seed, base + 300 + i, ENGINES[i % 3], p, rdfault=True) for i, p in enumerate(rd)]
     n_rand = 12 if tier == "quick" else 900
     cases += [gen_stepped(seed, base + 500 + i, ENGINES[i % 3]) for i in range(n_rand)]
     return cases, len(pl)
